@@ -43,8 +43,8 @@ type NCServer struct {
 	Hello   string // framed server hello sent at connect ("" = send nothing)
 	Version string // framing the server uses/expects after the hello exchange
 	Echo    bool   // echo every client byte (pty-like transport)
-	// HelloEchoMayShareRead lifts the barrier after the echo of the client hello (witness of a
-	// known finding).
+	// HelloEchoMayShareRead is obsolete (kept for old witness files): the echo of the client hello
+	// may always share a read with later bytes since the read loop was repaired (fix 20a8fa8).
 	HelloEchoMayShareRead bool
 
 	OnRequest func(r NCRequest) []NCAction
@@ -137,12 +137,6 @@ func (s *NCServer) Input(b []byte) []byte {
 		s.ClientHello = string(s.in[:i])
 		s.in = s.in[i+len(EOM):]
 		s.GotHello = true
-
-		if s.Echo && !s.HelloEchoMayShareRead {
-			// known finding (echo-hello-shares-read): keep the echo of the client hello out of
-			// the read that carries later bytes
-			s.barriers = append(s.barriers, len(out))
-		}
 	}
 
 	for {
